@@ -427,6 +427,15 @@ class RepoInterp:
         objects is dead: CPython hands its address to the next object allocated, so a different object of the
         current call gets the same id (the scenario picks that legal schedule)."""
         v = st.freeze(obj)
+
+        def same(a: Any, b: Any) -> bool:
+            # identity, not equality: records whose equality leaves fields out (code objects) are the same object only if those agree too
+            return a.identical(b) if isinstance(a, R) and a.kind in R.NOT_COMPARED else a == b
+
+        def id_of(x: Any) -> R:
+            if isinstance(x, R) and x.kind in R.NOT_COMPARED:
+                return R("id", of=x, which=K(repr(sorted((k_, repr(x.fields[k_])) for k_ in R.NOT_COMPARED[x.kind] if k_ in x.fields))))
+            return R("id", of=x)
         key = "__global__:__idlog__"
         if key not in st.env:
             st.env[key] = st.alloc("list", [])
@@ -434,21 +443,21 @@ class RepoInterp:
         gen_v = st.env.get("__global__:__idgen__", K(0))
         gen = gen_v.v if isinstance(gen_v, K) else 0
         for ent in log:
-            if ent.v[1] == v:
-                return R("id", of=v)
+            if same(ent.v[1], v):
+                return id_of(v)
         for ent in log:
             g0, p0 = ent.v[0].v, ent.v[1]
             if g0 < gen and not self._reachable(p0, st, st.env[key]):
                 log.append(K((K(gen), v)))
-                return R("id", of=p0)
+                return id_of(p0)
         log.append(K((K(gen), v)))
-        return R("id", of=v)
+        return id_of(v)
 
     def _reachable(self, p: V, st: State, skip: Any) -> bool:
         def inside(x: Any, depth: int = 0) -> bool:
             if depth > 12:
                 return False
-            if x == p:
+            if (x.identical(p) if isinstance(x, R) and x.kind in R.NOT_COMPARED else x == p):
                 return True
             if isinstance(x, Ref):
                 return False  # followed through the heap scan below
